@@ -18,9 +18,15 @@ func Copy(src, dest string) error {
 
 // CopyDirectory copy a directory and sub-direcotories and files on local files system.
 func CopyDirectory(src, dest string) error {
+	// a destination inside the source is not a part of the copied tree
+	// (without it the walk follows its own output until the path is too long)
+	skip := filepath.Clean(dest)
 	return filepath.Walk(src, func(path string, info os.FileInfo, err error) error {
 		if err != nil {
 			return err
+		}
+		if path != src && info.IsDir() && filepath.Clean(path) == skip {
+			return filepath.SkipDir
 		}
 		// path always starts with src: map it below dest
 		subPath := path[len(src):]
